@@ -1772,3 +1772,127 @@ func ruleR9_10(w *World, r *Report) {
 		r.OK("R9.10", key, w.InstrPos(reset), fmt.Sprintf("%d early return(s), each under status == Unsat", nEarly))
 	}
 }
+
+// ---------- R1.13: the median position on the learned list is len/2 rounded down ----------
+
+func ruleR1_13(w *World, r *Report) {
+	r.Rule("R1.13", "where the clause-deletion functions index the learned list with a quotient, the quotient is (length of the list) / 2 rounded down: the largest halving that is a valid index for every non-empty list ((n+1)/2 is not, for n = 1)", 1)
+	n := 0
+	for _, fn := range w.Fns {
+		if w.PkgName(fn) != "solver" {
+			continue
+		}
+		allInstrs(fn, func(ins ssa.Instruction) {
+			ia, ok := ins.(*ssa.IndexAddr)
+			if !ok {
+				return
+			}
+			if _, isL := isFieldLoad(ia.X, "solver.watcherList", "learned"); !isL {
+				return
+			}
+			q, ok := ia.Index.(*ssa.BinOp)
+			if !ok || q.Op != token.QUO {
+				return
+			}
+			n++
+			key := fmt.Sprintf("%s median of the learned list #%d", w.FuncName(fn), n)
+			two, isTwo := constInt(q.Y)
+			isLen := isLenOf(q.X, func(x ssa.Value) bool {
+				_, isF := isFieldLoad(x, "solver.watcherList", "learned")
+				return isF
+			})
+			r.Check(isTwo && two == 2 && isLen, "R1.13", key, w.InstrPos(ia), "len(learned) / 2",
+				"the position read on the learned list is not len/2 rounded down (e.g. (len+1)/2): with a single learned clause it is one past the end and the reduction panics")
+		})
+	}
+	if n == 0 {
+		r.Unk("R1.13", "median accesses", "-", "no access to the learned list at a quotient position")
+	}
+}
+
+// ---------- R2.10: the degree kept in a local and the degree stored in the constraint move together ----------
+
+func ruleR2_10(w *World, r *Report) {
+	r.Rule("R2.10", "in the parse-time simplifier of cardinality constraints, every trip of the literal scan that lowers the local copy of the degree and goes on scanning also lowers the degree stored in the constraint by the same amount (the constraint that stays in the problem must ask for what is left to satisfy)", 1)
+	upd := w.Func("solver", "Clause.updateCardinality")
+	cardFn := w.Func("solver", "Clause.Cardinality")
+	if upd == nil || cardFn == nil {
+		r.Unk("R2.10", "(*solver.Clause).updateCardinality / Cardinality", "-", "method not found")
+		return
+	}
+	n := 0
+	for _, fn := range w.Fns {
+		if w.PkgName(fn) != "solver" || fn.Signature.Recv() == nil || typeShort(fn.Signature.Recv().Type()) != "*solver.Problem" {
+			continue
+		}
+		for _, h := range loopHeaders(fn) {
+			body := loopBlocks(fn, h)
+			// a header phi whose entry value is a Cardinality() call: the local copy of the degree
+			var card *ssa.Phi
+			var clause ssa.Value
+			for _, ins := range h.Instrs {
+				p, ok := ins.(*ssa.Phi)
+				if !ok {
+					break
+				}
+				for i, e := range p.Edges {
+					if body[h.Preds[i]] {
+						continue
+					}
+					if c, isC := e.(*ssa.Call); isC && w.staticCalleeIs(c, cardFn) && len(c.Call.Args) == 1 {
+						card, clause = p, c.Call.Args[0]
+					}
+				}
+			}
+			if card == nil {
+				continue
+			}
+			n++
+			key := fmt.Sprintf("%s keeps the stored degree in step with its local copy #%d", w.FuncName(fn), n)
+			var bad []string
+			_, trunc := exploreEdges(h.Succs[0], &pstate{phi: map[*ssa.Phi]ssa.Value{}, facts: map[string]string{}, coarse: true},
+				func(b *ssa.BasicBlock) bool { return b == h || !body[b] },
+				func(ins ssa.Instruction, st *pstate) {
+					if c, ok := ins.(*ssa.Call); ok && w.staticCalleeIs(c, upd) && len(c.Call.Args) == 2 && c.Call.Args[0] == clause {
+						if k, isK := constInt(c.Call.Args[1]); isK {
+							st.facts["stored"] = fmt.Sprint(k)
+						} else {
+							st.facts["stored"] = "?"
+						}
+					}
+				},
+				func(from, to *ssa.BasicBlock, st *pstate) {
+					if to != h {
+						return
+					}
+					d := lfAdd(lfOf(phiIncoming(card, from, st), 0), lfOf(card, 0), -1)
+					delta := "0"
+					if len(d.terms) == 0 || d.String() == (linForm{c: d.c, terms: map[string]int64{}}).String() {
+						delta = fmt.Sprint(d.c)
+					} else {
+						delta = "?"
+					}
+					stored := st.facts["stored"]
+					if stored == "" {
+						stored = "0"
+					}
+					if delta != stored {
+						bad = append(bad, fmt.Sprintf("a trip ending at %s changes the local degree by %s and the stored degree by %s", w.InstrPos(from.Instrs[len(from.Instrs)-1]), delta, stored))
+					}
+				})
+			switch {
+			case trunc:
+				r.Unk("R2.10", key, w.Pos(fn.Pos()), "state space too large")
+			case len(bad) > 0:
+				bad = dedupe(bad)
+				sort.Strings(bad)
+				r.Bad("R2.10", key, w.Pos(fn.Pos()), strings.Join(bad, "; ")+": the constraint kept in the problem still asks for the weight that the removed true literal already provided, so it is too strong (wrong Unsat, or a degree above the number of literals)")
+			default:
+				r.OK("R2.10", key, w.Pos(fn.Pos()), "local and stored degree change together on every trip that goes on")
+			}
+		}
+	}
+	if n == 0 {
+		r.Unk("R2.10", "degree copies", "-", "no loop carrying a local copy of Cardinality() in a method of Problem")
+	}
+}
